@@ -6,6 +6,7 @@ import Proofs.OptionsNoGit
 import Proofs.OptionsSpec
 import Proofs.OptionsPost
 import Proofs.OptionsValues
+import Proofs.GitParamsMap
 /-!
 C13 — option values resolve by the documented precedence, deterministically.
 
@@ -677,5 +678,179 @@ theorem gather_deterministic_of_fixed_order (order : List Name) (π π' : List N
   subst h; subst h'; exact ⟨rfl, fun _ => rfl⟩
 
 example : gatherFeatures sortedNames w13 = ["raw", "diff-so-fancy"] := by decide
+
+/-! ### How `GIT_CONFIG_PARAMETERS` is read (T11) -/
+
+/-- The pattern text of `GIT_CONFIG_PARAMETERS_REGEX`, the arms of the `match` over its capture groups and the
+    collection the pairs go into are the ones `GitParams.matchAt` / `pairOf` / `toParams` were written against (all
+    re-read from src/git_config/mod.rs on every run). -/
+theorem params_regex_pinned :
+    Generated.GitParams.regexBody = "(?x)(?:'(delta\\.[a-z-]+)=([^']+)'|'(delta\\.[a-z-]+)'='([^']+)')" ∧
+    Generated.GitParams.groupArms = [([true, true, false, false], 1, 2), ([false, false, true, true], 3, 4)] ∧
+    Generated.GitParams.collectsInto = "HashMap" ∧
+    Generated.GitParams.envVarName = "GIT_CONFIG_PARAMETERS" :=
+  ⟨rfl, rfl, rfl, rfl⟩
+
+/-- Facts about the generated classes that make the hand-written matcher the regex: neither `=` nor `'` is a key
+    character and `'` is the one character a value cannot contain — a greedy run followed by the wrong character
+    cannot be repaired by giving characters back, so the maximal runs `matchAt` takes are the only candidates. -/
+theorem params_classes_deterministic :
+    GitParams.keyChar '=' = false ∧ GitParams.keyChar '\'' = false ∧
+    ∀ c, GitParams.valChar c = true ↔ c ≠ '\'' :=
+  ⟨GitParams.keyChar_eq, GitParams.keyChar_quote, GitParams.valChar_iff⟩
+
+/-- `parse_config_from_env_var_value` cannot panic, whatever the variable holds: every match of the pattern selects an
+    arm of the `match` whose two groups took part (`captures[i]` of an absent group would panic). -/
+theorem params_reader_never_panics (s : String) : (GitParams.parsePairs s).isSome = true :=
+  GitParams.scan_never_panics s
+
+/-- The pairs delta must find in a variable written by the `-c` entries `es`: those of the main section, in order. -/
+def goodPairs (es : List (Bool × GitParams.Entry)) : List (String × String) :=
+  (es.filter fun p => GitParams.goodDelta p.2).map fun p =>
+    (String.ofList p.2.key, String.ofList (p.2.value.getD []))
+
+theorem allSome_expected (es : List (Bool × GitParams.Entry)) :
+    (GitParams.allSome (GitParams.expectedPairs es)).map
+      (fun l => l.map fun p => (String.ofList p.1, String.ofList p.2)) = some (goodPairs es) := by
+  induction es with
+  | nil => rfl
+  | cons p ps ih =>
+    unfold GitParams.expectedPairs goodPairs at *
+    cases h : GitParams.goodDelta p.2 with
+    | false => simpa [h] using ih
+    | true =>
+      simp only [List.filterMap_cons, h, if_true, GitParams.allSome, List.filter_cons, List.map_cons]
+      cases hh : GitParams.allSome (List.filterMap (fun p =>
+          if GitParams.goodDelta p.2 = true then some (some (p.2.key, p.2.value.getD [])) else none) ps) with
+      | none => simp [hh] at ih
+      | some l => simp [hh] at ih ⊢; exact ih
+
+/-- `params_parse_format`. For every sequence of `git -c key=value` entries — each written in the format of git ≥ 2.31
+    (`'key'='value'`) or of older gits (`'key=value'`), entries separated by a blank — in which every entry is either
+    one the pattern admits (`goodDelta`: key `delta.` + lower-case letters and `-`; a value that is not empty and
+    contains neither `'` nor `!`: spaces, `=`, `"`, `#`, non-ASCII text are all fine) or an entry of another section
+    that cannot be mistaken for one (`inertForeign`), delta reads exactly the main-section entries, each with exactly
+    its key and value, in order. Any number of entries, any lengths. Each excluded kind of entry is read differently
+    from git: `params_entries_not_read_as_given`. -/
+theorem params_parse_format (es : List (Bool × GitParams.Entry))
+    (h : ∀ p ∈ es, GitParams.goodDelta p.2 = true ∨ GitParams.inertForeign p.2 = true) :
+    GitParams.parsePairs (String.ofList (GitParams.fmtList es)) = some (goodPairs es) := by
+  unfold GitParams.parsePairs
+  rw [String.toList_ofList, GitParams.scan_fmtList es h]
+  exact allSome_expected es
+
+theorem goodPairs_append (a b : List (Bool × GitParams.Entry)) : goodPairs (a ++ b) = goodPairs a ++ goodPairs b := by
+  simp [goodPairs]
+
+/-- `git_c_read_exactly_last_wins`. "A key=value that git passed by `-c` is read as exactly that key and value, later
+    occurrences override earlier ones": in a variable written by `-c` entries as above, if `delta.<o>=v` is the last
+    entry for that key (`es2` has none), the main-section lookup of option `o` in the map delta builds gives `v` —
+    the same entry that wins in git (`git -c delta.tabs=1 -c delta.tabs=2 config delta.tabs` prints 2). -/
+theorem git_c_read_exactly_last_wins (es1 es2 : List (Bool × GitParams.Entry)) (f : Bool) (o : Name)
+    (v : List Char)
+    (h : ∀ p ∈ es1 ++ (f, ⟨("delta." ++ o).toList, some v⟩) :: es2,
+      GitParams.goodDelta p.2 = true ∨ GitParams.inertForeign p.2 = true)
+    (hg : GitParams.goodDelta ⟨("delta." ++ o).toList, some v⟩ = true)
+    (hlast : ∀ p ∈ es2, p.2.key ≠ ("delta." ++ o).toList) :
+    ∃ ps, GitParams.paramsOfEnv
+        (some (String.ofList (GitParams.fmtList (es1 ++ (f, ⟨("delta." ++ o).toList, some v⟩) :: es2)))) = some ps ∧
+      lookup o ps = some (String.ofList v) := by
+  refine ⟨GitParams.toParams (goodPairs (es1 ++ (f, ⟨("delta." ++ o).toList, some v⟩) :: es2)),
+    by simp only [GitParams.paramsOfEnv, params_parse_format _ h, Option.map_some], ?_⟩
+  have e : goodPairs (es1 ++ (f, ⟨("delta." ++ o).toList, some v⟩) :: es2) =
+      goodPairs es1 ++ ("delta." ++ o, String.ofList v) :: goodPairs es2 := by
+    rw [goodPairs_append]
+    simp only [goodPairs, List.filter_cons, hg, if_true, List.map_cons, String.ofList_toList, Option.getD_some]
+  rw [e]
+  apply GitParams.toParams_last_wins
+  intro p hp
+  simp only [goodPairs, List.mem_map, List.mem_filter] at hp
+  obtain ⟨q, ⟨hq, _⟩, rfl⟩ := hp
+  intro heq
+  apply hlast q hq
+  have := congrArg String.toList heq
+  simpa using this
+
+/-- … lifted to the effective value: with a git config object in use and the option not on the command line, the
+    effective value of `o` is the reading of the last `-c delta.<o>=v`, whatever the file, the features and the builtin
+    defaults say. The variable enters as the text git wrote; `Inputs.params` is what `paramsOfEnv` makes of it. -/
+theorem git_c_value_effective (π : List Name) (inp : Inputs) (g : GitCfg)
+    (es1 es2 : List (Bool × GitParams.Entry)) (f : Bool) (o : Name) (v : List Char) (r : String)
+    (h : ∀ p ∈ es1 ++ (f, ⟨("delta." ++ o).toList, some v⟩) :: es2,
+      GitParams.goodDelta p.2 = true ∨ GitParams.inertForeign p.2 = true)
+    (hgd : GitParams.goodDelta ⟨("delta." ++ o).toList, some v⟩ = true)
+    (hlast : ∀ p ∈ es2, p.2.key ≠ ("delta." ++ o).toList)
+    (hpar : GitParams.paramsOfEnv
+      (some (String.ofList (GitParams.fmtList (es1 ++ (f, ⟨("delta." ++ o).toList, some v⟩) :: es2)))) =
+        some inp.params)
+    (hg : finalConfig inp = some g) (he : g.enabled = true) (hcli : lookup o inp.cli = none)
+    (ha : envRead (optionType o) (String.ofList v) = some r) :
+    effective π inp o = .git r := by
+  obtain ⟨ps, hps, hl⟩ := git_c_read_exactly_last_wins es1 es2 f o v h hgd hlast
+  rw [hpar] at hps
+  cases hps
+  have hgp : g.params = inp.params := by
+    unfold finalConfig at hg
+    simp only [Option.map_eq_some_iff] at hg
+    obtain ⟨a, _, rfl⟩ := hg
+    rfl
+  exact git_config_parameters_override_effective π inp g o _ r hg he hcli (by rw [hgp]; exact hl) ha
+
+/-- `git -c user.name='A B' -c delta.tabs=1 -c delta.hunk-header-line-number-style='red "#067a00"'` (written by an old
+    git) `-c diff.renames -c delta.tabs=2k`. -/
+def cEntries : List (Bool × GitParams.Entry) :=
+  [(true, ⟨"user.name".toList, some "A B".toList⟩),
+   (true, ⟨"delta.tabs".toList, some "1".toList⟩),
+   (false, ⟨"delta.hunk-header-line-number-style".toList, some "red \"#067a00\"".toList⟩),
+   (true, ⟨"diff.renames".toList, none⟩),
+   (true, ⟨"delta.tabs".toList, some "2k".toList⟩)]
+
+example : String.ofList (GitParams.fmtList cEntries) =
+    "'user.name'='A B' 'delta.tabs'='1' 'delta.hunk-header-line-number-style=red \"#067a00\"' 'diff.renames'= 'delta.tabs'='2k'" := by
+  decide
+example : ∀ p ∈ cEntries, GitParams.goodDelta p.2 = true ∨ GitParams.inertForeign p.2 = true := by decide
+example : GitParams.paramsOfEnv (some (String.ofList (GitParams.fmtList cEntries))) =
+    some [("tabs", "2k"), ("hunk-header-line-number-style", "red \"#067a00\""), ("tabs", "1")] := by decide +kernel
+
+/-- The hypotheses of `git_c_value_effective` on `cEntries`: `[delta] tabs = 3` in the file, `-c delta.tabs=1` … `-c
+    delta.tabs=2k`: the last one wins, read as git reads it. -/
+def cInputs : Inputs :=
+  { noInputs with
+    params := [("tabs", "2k"), ("hunk-header-line-number-style", "red \"#067a00\""), ("tabs", "1")]
+    configFile := some { main := [("tabs", "3")], sections := [], other := [] } }
+
+example : effective sortedNames cInputs "tabs" = .git "2048" :=
+  git_c_value_effective sortedNames cInputs
+    { enabled := true, params := cInputs.params, file := { main := [("tabs", "3")], sections := [], other := [] } }
+    (cEntries.take 4) [] true "tabs" "2k".toList "2048"
+    (by decide) (by decide) (by decide) (by decide +kernel) (by decide) rfl (by decide) (by decide)
+
+/-- `params_entries_not_read_as_given`. Each hypothesis of `params_parse_format` is needed — and each is a way in which
+    delta reads a `git -c` entry differently from git (confirmed on the real binary; known findings
+    `C13-params-*`): a value containing `'` or `!` is cut where git's quoting leaves the quotes, the empty value and a
+    key without value (git: `true`) are dropped, so is a key in another letter case; an entry of another section
+    whose value starts with `delta.<key>=` is taken for a delta entry. -/
+theorem params_entries_not_read_as_given :
+    -- a value with `'` (git writes `'\''`): cut at the quote
+    (String.ofList (GitParams.fmtList [(true, ⟨"delta.file-modified-label".toList, some "it's".toList⟩)]) =
+        "'delta.file-modified-label'='it'\\''s'" ∧
+      GitParams.parsePairs "'delta.file-modified-label'='it'\\''s'" = some [("delta.file-modified-label", "it")]) ∧
+    -- a value with `!` (git writes `'\!'`): cut there
+    (String.ofList (GitParams.fmtList [(true, ⟨"delta.file-modified-label".toList, some "hi! there".toList⟩)]) =
+        "'delta.file-modified-label'='hi'\\!' there'" ∧
+      GitParams.parsePairs "'delta.file-modified-label'='hi'\\!' there'" = some [("delta.file-modified-label", "hi")]) ∧
+    -- the empty value: the entry is dropped
+    (String.ofList (GitParams.fmtList [(true, ⟨"delta.pager".toList, some []⟩)]) = "'delta.pager'=''" ∧
+      GitParams.parsePairs "'delta.pager'=''" = some []) ∧
+    -- a key without value (git: the boolean true), either format: dropped
+    (String.ofList (GitParams.fmtList [(true, ⟨"delta.navigate".toList, none⟩)]) = "'delta.navigate'=" ∧
+      GitParams.parsePairs "'delta.navigate'=" = some [] ∧ GitParams.parsePairs "'delta.navigate'" = some []) ∧
+    -- a key git treats as the same (section and variable names are case-insensitive): dropped
+    GitParams.parsePairs "'Delta.Navigate'='true'" = some [] ∧
+    -- an entry of another section whose value starts like a delta entry: read as a delta entry
+    (String.ofList (GitParams.fmtList [(true, ⟨"user.name".toList, some "delta.file-modified-label=y".toList⟩)]) =
+        "'user.name'='delta.file-modified-label=y'" ∧
+      GitParams.parsePairs "'user.name'='delta.file-modified-label=y'" = some [("delta.file-modified-label", "y")]) := by
+  decide
 
 end C13
